@@ -218,20 +218,11 @@ impl Channel {
             let dur = metrics.calculate_duration(&msg, rng_ref);
             let busy = metrics.calculate_busy(&msg);
 
-            if busy != Duration::ZERO {
-                let transmissin_finish = SimTime::now() + busy;
-
-                drop(chan);
-                self.set_busy_until(transmissin_finish);
-
-                sink.add(
-                    NetEvents::ChannelUnbusyNotif(ChannelUnbusyNotif {
-                        channel: self.clone(),
-                    }),
-                    transmissin_finish,
-                );
-            }
-
+            // The message leaves the connection at `now + dur`. This event must be
+            // scheduled before the unbusy notification below: with zero latency and
+            // jitter both carry the same timestamp, and the message that just finished
+            // its transmission has to be delivered before the unbusy notification
+            // starts transmitting (and possibly instantly delivering) queued messages.
             let next_event_time = SimTime::now() + dur;
 
             sink.add(
@@ -246,6 +237,20 @@ impl Channel {
                 }),
                 next_event_time,
             );
+
+            if busy != Duration::ZERO {
+                let transmissin_finish = SimTime::now() + busy;
+
+                drop(chan);
+                self.set_busy_until(transmissin_finish);
+
+                sink.add(
+                    NetEvents::ChannelUnbusyNotif(ChannelUnbusyNotif {
+                        channel: self.clone(),
+                    }),
+                    transmissin_finish,
+                );
+            }
 
             // must break iteration,
             // but not perform on-module handling
